@@ -12,6 +12,7 @@ pub fn oracle(o: &Outcome, s: &Scen) -> Option<(String, serde_json::Value)> {
     Kind::Subject => common_order(o).or_else(|| terminal_consistency(o)),
     Kind::Pipe(_) if s.name == "share_threads" => common_order(o),
     Kind::Shared => share_oracle(o),
+    Kind::Pipe(_) if s.name == "finalize+subscribe_on+workers" => finalize_behind_subscribe_on(o),
     Kind::Pipe(_) if s.name == "interval+workers" => interval_oracle(o, s).or_else(|| after_unsub(o)),
     Kind::Pipe(_) if s.name.ends_with("[fifo-worker]") => moved_oracle(o, s),
     Kind::Pipe(_) if matches!(s.name, "debounce+workers" | "throttle_time+workers" | "buffer_with_time+workers" | "buffer_with_count_and_time+workers" | "sample(interval)+workers") => rate_oracle(o, s).or_else(|| rate_linearizable(o, s)),
